@@ -83,6 +83,8 @@ def r1_template(ctx, chk, rule="C11.1"):
             return piece_text(inner)
         if t[0] == "call" and t[1] == "str" and t[2] and t[2][0][0] == "call" and t[2][0][1] in ("int", "float", "round"):
             return "7"
+        if t[0] == "call" and t[1] == "str" and len(t[2]) == 1 and not t[3]:
+            return piece_text(t[2][0])          # str() of a piece that is already text (a look-up in a table of strings)
         if t[0] == "idx" and t[1][0] in ("list", "tup") and all(is_const(x) and isinstance(x[1], str) and "\n" not in x[1] for x in t[1][1]):
             return "X"
         if t[0] == "idx" and t[1][0] == "v":
@@ -292,6 +294,10 @@ def r3_wellformed(ctx, chk, rule="C11.3"):
                         if entry is not None and entry[0] == "pyentry":
                             # post-processed entry: back to terms for the checks below
                             entry = ("list", tuple(("tup", ((C(k) if isinstance(k, str) else ("polyval", k)), ("polyval", tp))) for k, tp in entry[1]))
+                        if entry is not None and entry[0] != "list":
+                            n_bad += 1
+                            chk.undecided(rule, where, "%s: entry `%s` is not resolved to a list of transitions in this case" % (ctxt, show(entry)[:80]))
+                            continue
                         if entry is None or entry[0] != "list" or len(entry[1]) == 0:
                             n_bad += 1
                             chk.violation(rule, where, "%s: no transition is emitted for this tile (a state without transitions is rejected as 'Missing transitions', or the lists go out of step)" % ctxt,
